@@ -61,6 +61,18 @@ func (sc *Scn) TxDt(dt time.Duration, kind string, signer *Acct, f J, msgs ...sd
 	return 1
 }
 
+// Rebegin emits a fresh hist.begin (handlers restart from the current observed state, with the current pool list):
+// for scenarios that first build extra pools.
+func (sc *Scn) Rebegin(extra ...PoolRef) {
+	sc.std.Pools = append(sc.std.Pools, extra...)
+	pools := []J{}
+	for _, p := range sc.std.Pools {
+		pools = append(pools, J{"id": p.Id, "addr": p.Addr, "oracle": p.Oracle, "perp": p.Perp, "denoms": p.Denoms, "shareDenom": p.ShareDen, "treasury": p.Treasury})
+	}
+	sc.id += 1000
+	sc.out.Line(J{"t": "hist.begin", "id": sc.id, "seed": 0, "scenario": "rebegin", "names": sc.w.Names, "pools": pools, "obs": sc.w.Observe()})
+}
+
 // Empty advances the chain by one empty block.
 func (sc *Scn) Empty(dt time.Duration) {
 	if !emitBlock(sc.w, sc.out, sc.id, nil, dt, sc.stats) {
@@ -268,6 +280,32 @@ func init() {
 				sc.Tx("amm.join", lp, J{"pool": pool.Id}, &ammtypes.MsgJoinPool{Sender: lp.Addr.String(), PoolId: pool.Id, MaxAmountsIn: join, ShareAmountOut: math.ZeroInt()})
 				sc.Empty(2 * time.Hour)
 			}
+		}
+	}
+}
+
+func init() {
+	// C01: swap fees of a handful of base units on a freshly balanced oracle pool whose input asset is not the fee denom: the
+	// fee's skim, its split and its conversion to the fee denom all truncate, some of them to zero (the conversion runs nested
+	// under a cache context while the outer swap keeps using the same in-memory pool).
+	scenarios["c01-dust-fee-sweep"] = func(sc *Scn) {
+		w := sc.w
+		trader := w.Accts[3]
+		var ref PoolRef
+		w.Seed(func(ctx sdk.Context) {
+			w.App.AssetprofileKeeper.SetEntry(ctx, aptypes.Entry{BaseDenom: "uusdt", Denom: "uusdt", Decimals: 6, DisplayName: "USDT", CommitEnabled: true, WithdrawEnabled: true})
+			w.App.OracleKeeper.SetAssetInfo(ctx, oracletypes.AssetInfo{Denom: "uusdt", Display: "USDT", Decimal: 6, BandTicker: "USDT", ElysTicker: "USDT"})
+			w.SetPrice(ctx, "USDT", D("1"), sc.std.Feeder.Addr.String())
+			w.Fund(ctx, w.Accts[0].Addr, sdk.NewCoins(sdk.NewCoin("uusdt", math.NewInt(2_000_000_000_000))))
+			w.Fund(ctx, trader.Addr, sdk.NewCoins(sdk.NewCoin("uusdt", math.NewInt(1_000_000_000_000))))
+			ref = w.createPool(ctx, w.Accts[0].Addr, true, D("0.001"), "uusdt", math.NewInt(1_000_000_000_000), math.NewInt(1_000_000_000_000), 10, 10)
+		})
+		w.Block(5*time.Second, nil)
+		sc.Rebegin(ref)
+		for a := int64(500); a <= 12_000; a += 250 {
+			sc.Tx("amm.swapIn", trader, J{"pool": ref.Id, "in": []string{"uusdt", itoa(uint64(a))}, "hops": 1},
+				&ammtypes.MsgSwapExactAmountIn{Sender: trader.Addr.String(), Routes: []ammtypes.SwapAmountInRoute{{PoolId: ref.Id, TokenOutDenom: "uusdc"}},
+					TokenIn: sdk.NewCoin("uusdt", math.NewInt(a)), TokenOutMinAmount: math.OneInt(), Recipient: trader.Addr.String()})
 		}
 	}
 }
